@@ -164,6 +164,62 @@ def run(ctx):
         amap = {id(s[1]): a for s, (o, a) in zip(sent, chunk)}
         ctx.compare(sent, lambda op, args, real: p_check(op, amap[id(args)], real), nontrivial, canon=canon)
     ctx.exhaustive = True
+    run_forms(ctx)
+
+
+def run_forms(ctx):
+    """what the program text itself cannot express: values pushed from a file or from standard input, quoting and
+    unquoting of strings that need escapes, an output file that cannot be opened, long option names and bundled short
+    ones.  Each line carries the status and output the manual gives for it."""
+    hx = lambda t: (t if isinstance(t, bytes) else t.encode()).hex()
+    cases = [
+        (["fmt", "-j", "-", "-j", "-", "-o", "-"], {"stdin": hx('{"a":1} [2]')}, 0, "[2]"),
+        (["fmt", "-j", "-", "-g", "a", "-o", "-"], {"stdin": hx(' {"a":7}')}, 0, "7"),
+        (["fmt", "-j", "in.json", "-g", "a", "-o", "-"], {"files": {"in.json": hx('{"a":7}')}}, 0, "7"),
+        (["fmt", "-j", "in.json", "-o", "-"], {"files": {"in.json": hx('{"a":')}}, None, None),
+        (["fmt", "-j", "nofile", "-o", "-"], {}, None, None),
+        (["fmt", "-q", "1", "-S", "-o", "-"], {}, 0, '"1"'),
+        (["fmt", "-q", "true", "-S", "-o", "-"], {}, 0, '"true"'),
+        (["fmt", "-q", "{}", "-S", "-o", "-"], {}, 0, '"{}"'),
+        (["fmt", "-q", 'a"b\\c', "-u", "-"], {}, 0, 'a"b\\c\n'),
+        (["fmt", "-q", 'a"b\\c', "-o", "-"], {}, 0, '"a\\"b\\\\c"'),
+        (["fmt", "-j", '"x\\ny"', "-u", "f1"], {}, 0, ""),
+        (["fmt", "-j", '"s"', "-u", "nodir/x", "-o", "-"], {}, 2, ""),
+        (["fmt", "-j", "[1]", "-o", "nodir/x", "-o", "-"], {}, 2, ""),
+        (["fmt", "-j", "[1]", "-o", "-", "-U", "-o", "-"], {}, 4, "[1]"),
+        (["fmt", "-j", "5", "-f", "-"], {}, 2, ""),
+        (["fmt", "--json={\"a\":[1,2]}", "--get=a", "--truncate=-1", "--output=-"], {}, 0, "[1]"),
+        (["fmt", "--json", "[1,2]", "--length", "--output", "-"], {}, 0, "2"),
+        (["fmt", "-j", "{}", "-cs", "unprotected", "-UUo-"], {}, 6, ""),
+        (["fmt", "-j", "{}", "-cs", "unprotected", "-Uo-"], {}, 0, '{"unprotected":{}}'),
+        (["fmt", "-j", '{"a":1,"b":[2]}', "-j", '{"a":9,"c":3}', "-a", "-U", "-o", "-"], {}, 0, '{"a":1,"b":[2],"c":3}'),
+        (["fmt", "-j", '{"a":1,"b":[2]}', "-j", '{"a":9,"c":3}', "-x", "-U", "-o", "-"], {}, 0, '{"a":9,"b":[2],"c":3}'),
+        (["fmt", "-j", "false", "-B", "-X", "-T", "-F", "-o", "-"], {}, 0, "false"),
+        (["fmt", "-j", "[1,2,3]", "-g", "+1", "-o", "-"], {}, 0, "2"),
+        (["fmt", "-j", "[1,2,3]", "-g", "01", "-o", "-"], {}, 0, "2"),
+        (["fmt", "-j", "[1,2,3]", "-g", "1x", "-o", "-"], {}, 0, "2"),
+        (["fmt", "-j", "[1,2,3]", "-g", "-0", "-o", "-"], {}, 0, "1"),
+        (["fmt", "-j", "[1,2,3]", "-g", "x1", "-o", "-"], {}, 2, ""),
+    ]
+    ops = []
+    for argv, extra, st, out in cases:
+        ops.append(("cli.run", dict({"argv": argv}, **extra)))
+    # the model of the tool has no long names, no bundling, one read of standard input and no directories (ASSUMPTIONS):
+    # those lines are judged against the manual on the implementation only, the others are compared with the model too
+    def modelled(argv, extra):
+        return not any(a.startswith("--") or (a.startswith("-") and len(a) > 2 and not a[1:].lstrip("-").isdigit() and a[1] not in "0123456789") for a in argv[1:]
+                       if a.startswith("-") and a not in ("-",)) and argv.count("-") < 3 and not any("nodir" in a for a in argv)
+    both = [x for x, c in zip(ops, cases) if modelled(c[0], c[1])]
+    ctx.compare(both, None, lambda o, a, r: json.dumps(a, sort_keys=True), canon=canon)
+    real = ctx.real(ops)
+    ctx.evaluations += len(ops)
+    for (o, a), (argv, extra, st, out), r in zip(ops, cases, real):
+        if st is None or "crash" in r:
+            continue
+        got = (r.get("status"), bytes.fromhex(r.get("stdout") or "").decode("utf-8", "replace"))
+        if got[0] != st or (st == 0 or out) and got[1] != out and not (st and out == ""):
+            ctx.pfails.append(("fmt:forms", "manual says status %s output %r, tool did %r for: jose %s" % (st, out, got, " ".join(argv)), o, a, r))
+    ctx.count("option-forms", len(ops))
 
 
 def replay(ctx, rp):
